@@ -93,7 +93,11 @@ fn comp_check(id: &str, tier: &str, seed: u64, args: &[String]) -> i32 {
     let mut out = out;
     let mut fuzz_info = serde_json::json!({"ran": false});
     if thorough && out.failure.is_none() && std::env::var_os("VERIF_NO_FUZZ").is_none() {
-        let runs: u64 = arg_val(args, "--fuzz-runs").and_then(|s| s.parse().ok()).unwrap_or(2_000_000);
+        let runs: u64 = arg_val(args, "--fuzz-runs").and_then(|s| s.parse().ok()).unwrap_or(match id {
+            "C14" => 300_000,
+            "C12" | "C19" => 600_000,
+            _ => 2_000_000,
+        });
         let fz = vengine::runner::fuzz_stage("fz_comp", id, runs, seed, &[], 4096, workers);
         for a in &fz.artifacts {
             if let Ok(bytes) = std::fs::read(a) {
